@@ -486,6 +486,17 @@ func trimPathPrefix(u *url.URL, prefix string) *url.URL {
 		log.Printf("[ERROR] Unable to parse trimmed URL %s: %v", trimmedURI, err)
 		return u
 	}
+	if u.Host == "" && (trimmedURL.Host != "" || trimmedURL.User != nil) {
+		// the trimmed path started with exactly two slashes and url.Parse took
+		// what followed for an authority; it is still only a path
+		if p, err := url.PathUnescape(trimmedPath); err == nil {
+			trimmedURL.Host, trimmedURL.User = "", nil
+			trimmedURL.Path, trimmedURL.RawPath = p, ""
+			if p != trimmedPath {
+				trimmedURL.RawPath = trimmedPath
+			}
+		}
+	}
 	return trimmedURL
 }
 
